@@ -10,3 +10,25 @@ pub fn backtrace_stub() -> std::backtrace::Backtrace {
 }
 #[cfg(kani)]
 mod c05;
+#[cfg(kani)]
+mod clean;
+#[cfg(kani)]
+mod c06;
+
+/// `constant_time_eq` hides its loop from the optimiser with inline asm, which Kani cannot
+/// model; its functional contract is plain slice equality.
+#[cfg(kani)]
+pub fn ct_eq_stub(a: &[u8], b: &[u8]) -> bool {
+    if a.len() != b.len() {
+        return false;
+    }
+    let mut eq = true;
+    let mut i = 0;
+    while i < a.len() {
+        if a[i] != b[i] {
+            eq = false;
+        }
+        i += 1;
+    }
+    eq
+}
